@@ -61,6 +61,9 @@ pub enum Poll<T> { Ready(T), Pending }
 pub struct Context { pub x: u8 }
 // A-core-05: `impl<T> From<T> for Option<T>` is Some
 pub assume_specification<T>[<Option<T> as From<T>>::from](t: T) -> (r: Option<T>) ensures r == Some(t);
+// A-core-14: Option::replace stores the value and returns the old one
+pub assume_specification<T>[ Option::<T>::replace ](o: &mut Option<T>, v: T) -> (r: Option<T>)
+    ensures r == *old(o), *final(o) == Some(v);
 // A-core-01: core::mem::replace stores src and returns the old value
 pub assume_specification<T>[core::mem::replace::<T>](dest: &mut T, src: T) -> (r: T)
     ensures r == *old(dest), *final(dest) == src;
